@@ -45,7 +45,7 @@ RULE = ("announcement / goodbye / silence histories of 1-3 instances and respond
         "or the address running out first (both must agree exactly: no hash-order dependence left), stop_browse of one of "
         "the two names (known finding) with or without the records coming back, PTR delivered "
         "with and without cache-flush bit; non-trivial = at least one event")
-TRUSTED = bc.TRUSTED_COMMON
+TRUSTED = bc.TRUSTED_COMMON  # model follows /repo fixes up to 48ec5c0 (follow-ups only while a PTR points to the instance)
 PARTIAL = ("Of viol_C05's failure kinds F05_alive, F05_again and F05_dead are excluded by history-level theorems outside the "
            "executable classes named in LEVEL_TEXT; F05_wake is not (the browser model does not compute timers: requested "
            "wake-ups are an input of the checker; the cache-layer timer theorem is C12's). Inside the classes: F05_again is "
